@@ -1,0 +1,28 @@
+//go:build verif
+
+// Contracts for deductive verification (read as text by /verif/engine; this
+// file is never compiled into the package: it is comment-only and guarded
+// by the build tag verif).
+
+package pypi
+
+// ---------------------------------------------------------------------------
+// C16 (partial): name normalisation (PEP 503). On names over [-_.A-Za-z0-9]
+// the result consists of [a-z0-9-] only and never has two '-' in a row: every
+// run of separators collapses to one '-' and letters are lower-cased. The
+// output buffer is a ghost byte sequence (buflen / bufat).
+
+//@ pred nameChar(c byte) = ('a' <= c && c <= 'z') || ('A' <= c && c <= 'Z') || ('0' <= c && c <= '9') || c == '-' || c == '_' || c == '.'
+//@ pred canonChar(c byte) = ('a' <= c && c <= 'z') || ('0' <= c && c <= '9') || c == '-'
+
+//@ func CanonPackageName
+//@   requires forall(i, 0, len(name), nameChar(name[i]))
+//@   ensures forall(i, 0, len(result), canonChar(result[i]))
+//@   ensures forall(i, 0, len(result) - 1, !(result[i] == '-' && result[i+1] == '-'))
+//@   ensures len(result) <= len(name)
+//@   loop 0
+//@     invariant buflen(&out) <= i
+//@     invariant forall(k, 0, buflen(&out), canonChar(bufat(&out, k)))
+//@     invariant forall(k, 0, buflen(&out) - 1, !(bufat(&out, k) == '-' && bufat(&out, k+1) == '-'))
+//@     invariant iff(run, buflen(&out) > 0 && bufat(&out, buflen(&out) - 1) == '-')
+//@   property C16
